@@ -5,7 +5,7 @@
 From Coq Require Import Reals Qreals.
 From Coquelicot Require Import Coquelicot.
 From V Require Import lib.Tree gen.Gen_C10_kern model.C10 model.C11_spec proofs.C10 proofs.C10_trap proofs.C10_ends
-                      proofs.C10_RInt proofs.C11_RInt proofs.C10_RIntQ.
+                      proofs.C10_RInt proofs.C11_RInt proofs.C10_RIntQ proofs.C10_inf.
 Open Scope Q_scope.
 
 (* ---- the regenerated rows of Table B1 are the documented piecewise formulas, end points included ---- *)
@@ -40,9 +40,10 @@ Proof. exact phip_trap_gen_spec. Qed.
 Print Assumptions C10_phi_prime_trap_is_4g.
 
 (* ---- the regenerated consistent kernels are the scoring functions of Gneiting (2011) / Taggart (2022),
-        for every g / phi / phi' that is finite on finite arguments ---- *)
+        for every g / phi / phi' that is finite on finite arguments (and, as every function one can write down, gives equal
+        values at equal rationals: the kernels may hand the data to g / phi converted to floating point, `1.0 * fcst`) ---- *)
 Theorem C10_consistent_quantile_kernel : forall (g : xv -> xv) (gq : Q -> Q) (alpha f o : Q),
-  (forall x, g (XFin x) =x= XFin (gq x)) ->
+  (forall x, g (XFin x) =x= XFin (gq x)) -> (forall x y, x == y -> gq x == gq y) ->
   gen_consistent_quantile g (XFin f) (XFin o) (XFin alpha)
   =x= XFin (if Qltb o f then (1 - alpha) * (gq f - gq o) else alpha * (gq o - gq f)).
 Proof. exact cq_gen_spec. Qed.
@@ -50,6 +51,7 @@ Print Assumptions C10_consistent_quantile_kernel.
 
 Theorem C10_consistent_expectile_kernel : forall (phi phi' : xv -> xv) (p p' : Q -> Q) (alpha f o : Q),
   (forall x, phi (XFin x) =x= XFin (p x)) -> (forall x, phi' (XFin x) =x= XFin (p' x)) ->
+  (forall x y, x == y -> p x == p y) -> (forall x y, x == y -> p' x == p' y) ->
   gen_consistent_expectile phi phi' (XFin f) (XFin o) (XFin alpha)
   =x= XFin ((if Qltb o f then 1 - alpha else alpha) * (p o - p f - p' f * (o - f))).
 Proof. exact ce_gen_spec. Qed.
@@ -57,7 +59,7 @@ Print Assumptions C10_consistent_expectile_kernel.
 
 Theorem C10_consistent_huber_kernel : forall (phi phi' : xv -> xv) (p p' : Q -> Q) (v f o : Q),
   (forall x, phi (XFin x) =x= XFin (p x)) -> (forall x, phi' (XFin x) =x= XFin (p' x)) -> 0 <= v ->
-  (forall x y, x == y -> p x == p y) ->
+  (forall x y, x == y -> p x == p y) -> (forall x y, x == y -> p' x == p' y) ->
   gen_consistent_huber phi phi' (XFin f) (XFin o) (XFin v)
   =x= XFin (let k := qclip v (f - o) in (1 # 2) * (p o - p (k + o) + k * p' f)).
 Proof. exact ch_gen_spec. Qed.
@@ -295,6 +297,35 @@ Theorem C10_tw_trap_nonneg : forall a b c d alpha v f o : Q, a < b -> b < c -> c
    q_tw_expectile_trap a b c d alpha f o == 0 /\ q_tw_huber_trap a b c d v f o == 0).
 Proof. exact tw_trap_nonneg. Qed.
 Print Assumptions C10_tw_trap_nonneg.
+
+(* ---- +-inf among the data, finite end points (Q-level, axiom-free).  g(x) = int_{-inf}^x weight reaches the total mass of the
+        weight at +inf (b - a resp. (d + c - a - b) / 2) and is 0 at -inf; the quantile-type kernel (tw_quantile_score; tw_absolute_error
+        is twice it at alpha = 1/2) for an infinite forecast or observation is weight-factor x the mass of the weight over the region
+        of the elementary quantile score: [obs, +inf) for a forecast of +inf, (-inf, obs) for a forecast of -inf, [fcst, +inf) for an
+        observation of +inf, (-inf, fcst) for an observation of -inf ---- *)
+Theorem C10_g_at_infinity : forall a b c d : Q, a < b -> b < c -> c < d ->
+  gen_g_rect (XFin a) (XFin b) (XInf true) =x= XFin (b - a) /\ gen_g_rect (XFin a) (XFin b) (XInf false) =x= XFin 0 /\
+  gen_g_trap (XFin a) (XFin b) (XFin c) (XFin d) (XInf true) =x= XFin ((d + c - a - b) / 2) /\
+  gen_g_trap (XFin a) (XFin b) (XFin c) (XFin d) (XInf false) =x= XFin 0 /\
+  (forall x, b <= x -> qg_rect a b x == b - a) /\ (forall x, d <= x -> qg_trap a b c d x == (d + c - a - b) / 2).
+Proof. intros a b c d H H0 H1. assert (a <= b) as Hab by lra. destruct (g_rect_at_infinity a b Hab). destruct (g_trap_at_infinity a b c d H H0 H1).
+ repeat split; try assumption; intros x Hx; destruct (g_total_mass a b c d x H H0 H1); auto. Qed.
+Print Assumptions C10_g_at_infinity.
+
+Theorem C10_tw_quantile_infinite_data : forall a b c d alpha x : Q, a < b -> b < c -> c < d ->
+  (let g := gen_g_rect (XFin a) (XFin b) in
+   gen_consistent_quantile g (XInf true) (XFin x) (XFin alpha) =x= XFin ((1 - alpha) * ((b - a) - qg_rect a b x)) /\
+   gen_consistent_quantile g (XInf false) (XFin x) (XFin alpha) =x= XFin (alpha * qg_rect a b x) /\
+   gen_consistent_quantile g (XFin x) (XInf true) (XFin alpha) =x= XFin (alpha * ((b - a) - qg_rect a b x)) /\
+   gen_consistent_quantile g (XFin x) (XInf false) (XFin alpha) =x= XFin ((1 - alpha) * qg_rect a b x)) /\
+  (let g := gen_g_trap (XFin a) (XFin b) (XFin c) (XFin d) in
+   gen_consistent_quantile g (XInf true) (XFin x) (XFin alpha) =x= XFin ((1 - alpha) * ((d + c - a - b) / 2 - qg_trap a b c d x)) /\
+   gen_consistent_quantile g (XInf false) (XFin x) (XFin alpha) =x= XFin (alpha * qg_trap a b c d x) /\
+   gen_consistent_quantile g (XFin x) (XInf true) (XFin alpha) =x= XFin (alpha * ((d + c - a - b) / 2 - qg_trap a b c d x)) /\
+   gen_consistent_quantile g (XFin x) (XInf false) (XFin alpha) =x= XFin ((1 - alpha) * qg_trap a b c d x)).
+Proof. intros a b c d alpha x H H0 H1. assert (a <= b) as Hab by lra. split;
+  [exact (tw_quantile_rect_infinite_data a b alpha x Hab) | exact (tw_quantile_trap_infinite_data a b c d alpha x H H0 H1)]. Qed.
+Print Assumptions C10_tw_quantile_infinite_data.
 
 (* non-vacuity *)
 Example C10_ex_rect_endpoint : gen_g_rect (XFin 0) (XFin 2) (XFin 2) =x= XFin 2 /\ gen_g_rect (XFin 0) (XFin 2) (XFin 0) =x= XFin 0.
